@@ -711,7 +711,10 @@ def gen_matches(src):
     return finish(src, "matches", args)
 
 
-REPL_TOK = ["x", "y", "-", "#", "$1", "$2", "$0", "$3", "[", "]", "=", "\\$", "\\\\", " "]
+REPL_TOK = ["x", "y", "-", "#", "$1", "$2", "$0", "$3", "[", "]", "=", "\\$", "\\\\", " ",
+            # what may follow a group reference: ASCII digits (a longer group number, or a literal digit when there is no such group),
+            # letters and digits of other scripts (never part of the group number), supplementary-plane characters
+            "0", "1", "7", "é", "中", "\U0001f600", "²", "٣", "Ⅷ", "½", "\U0001d7d9", "_", "{", "}"]
 REPL_BAD = ["$", "\\a", "$x", "$0a"]
 
 
